@@ -16,8 +16,14 @@ import (
 	"golang.org/x/tools/go/ssa/ssautil"
 )
 
+var repoDir = func() string {
+	if r := os.Getenv("VERIF_REPO"); r != "" {
+		return r // scratch copies (seed experiments); registered commands always use /repo
+	}
+	return "/repo"
+}()
+
 const (
-	repoDir   = "/repo"
 	verifDir  = "/verif"
 	libPkg    = "github.com/hnakamur/whispertool"
 	cmdPkg    = "github.com/hnakamur/whispertool/cmd"
